@@ -89,7 +89,17 @@ def gen_one(rng):
     if lk:
         for s in sc["strategies"]:
             s["listener_kwargs"] = dict(lk)
-    if rng.random() < 0.15:
+    if grouped and len(sc["strategies"]) == 2 and rng.random() < 0.25:
+        # the two strategies use listener arguments of their own: flumine builds one stream per (file, listener arguments)
+        # and replays the streams of an event group interleaved - each strategy must still be shown every update that
+        # passes ITS filters exactly once
+        s1 = sc["strategies"][1]
+        if lk:
+            s1.pop("listener_kwargs", None)
+        else:
+            s1["listener_kwargs"] = rng.choice([{"inplay": True}, {"inplay": False}, {"seconds_to_start": 86400.0}])
+        sc["own_streams"] = True
+    if rng.random() < 0.15 and not sc.get("own_streams"):  # (the arrival index cannot tell two streams' copies of a line apart)
         # two consecutive lines of one market with the same publish time (e.g. prices and a definition change published in
         # the same millisecond): both are updates in the data; the second carries no scripted actions
         for m in sc["markets"]:
